@@ -145,6 +145,7 @@ class Interp:
         self.concrete = concrete
         self.call_depth = 0
         self.current_fn = []
+        self.used = set()
         from . import models
         self.models = models.MODELS
         self.models_mod = models
